@@ -518,18 +518,30 @@ def oracle_sites(c):
 def run_cache_impl(c):
     """c['ops'] = list of ['desc', site] | ['gamma', v] | ['gbEnergy', v] | ['pgamma', v] | ['read', name];
     returns for every op None (setter) or the value read / the exception name"""
-    _, _, PP, _ = impl()
-    prec = PP('beta')
-    nbp = prec.nucleation
+    N, _, PP, _ = impl()
+    # holder of the parameter object: 'owned' = the one PrecipitateParameters creates (its validate() callback is registered),
+    # 'standalone' = NucleationBarrierParameters used on its own (public constructor, exported from kawin.precipitation),
+    # 'attached' = built by the user and assigned as prec.nucleation afterwards (no callback registered).
+    # All three start from the state of a new PrecipitateParameters: dislocations, gamma None, gbEnergy 0.3
+    holder = c.get('holder', 'owned')
+    if holder == 'standalone':
+        prec = None
+        nbp = N.NucleationBarrierParameters(site=N.DislocationDescription(), gamma=None, gbEnergy=0.3)
+    else:
+        prec = PP('beta')
+        if holder == 'attached':
+            prec.nucleation = N.NucleationBarrierParameters(site=N.DislocationDescription(), gamma=None, gbEnergy=0.3)
+        nbp = prec.nucleation
     out = []
     for op, arg in c['ops']:
         try:
             if op == 'desc':
                 nbp.setNucleationType(arg)
                 out.append(None)
-            elif op == 'gamma':
+            elif op == 'gamma' or (op == 'pgamma' and prec is None):
                 nbp.gamma = arg
-                prec._gamma = arg          # keep the owner consistent (its callback copies gamma back)
+                if prec is not None:
+                    prec._gamma = arg      # keep the owner consistent (its callback copies gamma back)
                 out.append(None)
             elif op == 'pgamma':
                 prec.gamma = arg
@@ -571,9 +583,10 @@ def oracle_cache(c):
         same = (exp == val) or (isinstance(exp, float) and isinstance(val, float) and math.isnan(exp) and math.isnan(val))
         if not same:
             last = [o for o in c['ops'][:i] if o[0] != 'read'][-1:] or [['(initial)', None]]
-            v.append(('cache_coherent', 'after setting ' + last[0][0].replace('pgamma', 'gamma'),
-                      'read of %s after %d operations returns %r; a fresh object with the current parameters (site %s, gamma %r, gbEnergy %r) returns %r'
-                      % (arg, i, val, site, g, e, exp)))
+            holder = c.get('holder', 'owned')
+            v.append(('cache_coherent', 'after setting ' + last[0][0].replace('pgamma', 'gamma') + ('' if holder == 'owned' else ', %s object' % holder),
+                      '%s NucleationBarrierParameters: read of %s after %d operations returns %r; a fresh object with the current parameters (site %s, gamma %r, gbEnergy %r) returns %r'
+                      % (holder, arg, i, val, site, g, e, exp)))
     return _dedupe(v)
 
 
@@ -675,8 +688,13 @@ def gen_cache(rng, quick):
             ops.append(['gbEnergy', float(rng.choice(evals)) if rng.random() < 0.95 else None])
         else:
             ops.append(['desc', str(rng.choice(SITES))])
+        if rng.random() < 0.2:
+            # read a factor, change ONE parameter, read the same factor again
+            f = str(rng.choice(FACTORS))
+            ch = [['desc', str(rng.choice(SITES))], ['gamma', float(rng.choice(gvals))], ['gbEnergy', float(rng.choice(evals))]][int(rng.integers(0, 3))]
+            ops += [['read', f], ch, ['read', f]]
     ops.append(['read', str(rng.choice(FACTORS))])
-    return {'kind': 'cache', 'ops': ops}
+    return {'kind': 'cache', 'ops': ops, 'holder': str(rng.choice(['owned', 'standalone', 'attached']))}
 
 
 def gen_search(rng, quick, budget=1.0):
@@ -1103,6 +1121,7 @@ def corr_cache(ctx, quick):
         got = run_cache_impl(c)
         ctx.count({'corr': 'cache', 'ops': c['ops']}, sum(1 for o in c['ops'] if o[0] != 'read') >= 2)
         ctx.hist('cache_ops', '<=8' if len(c['ops']) <= 8 else '9-14' if len(c['ops']) <= 14 else '>14')
+        ctx.hist('cache_holder', c.get('holder', 'owned'))
         for i, ((op, arg), mo, val) in enumerate(zip(c['ops'], model, got)):
             if op != 'read':
                 continue
@@ -1112,7 +1131,7 @@ def corr_cache(ctx, quick):
                 slot, site, (ei, gi) = mo[1]
                 exp = read_params(SITER[site] if slot != 'SGBk' else 'bulk', gv[gi], ev[ei])[SLOTR[slot]]
             if exp != val and not (isinstance(exp, float) and isinstance(val, float) and math.isnan(exp) and math.isnan(val)):
-                dis.append(('cache', c, 'operation %d (read %s): implementation %r, state machine with the generated reset table %r' % (i, arg, val, exp)))
+                dis.append(('cache', c, '%s object, operation %d (read %s): implementation %r, state machine with the generated reset table %r' % (c.get('holder', 'owned'), i, arg, val, exp)))
                 break
     return dis
 
@@ -1151,7 +1170,7 @@ def search(ctx, cases):
         nontrivial = {'factors': c.get('site') in GBSITES, 'params': True, 'cache': True, 'sites': True,
                       'cnt': any(d > 0 for d in c.get('dG', []))}[c['kind']]
         ctx.count(hexcase({k: v for k, v in c.items() if k != 'from_corpus'})['hex'], nontrivial)
-        ctx.hist('search_kind', c['kind'] + ('/corpus' if c.get('from_corpus') else ''))
+        ctx.hist('search_kind', c['kind'] + ('/' + c['holder'] if c.get('holder') else '') + ('/corpus' if c.get('from_corpus') else ''))
         if 'site' in c:
             ctx.hist('search_site', c['site'])
         hits += [(c, *h) for h in hs]
